@@ -546,6 +546,31 @@ def request (ctx : Ctx) (st : Store) (next : Nat) (ops : List Op) : ReqOut :=
     | .error e => ⟨st1, next, .ok (readsOf s0), .error e, cs⟩
     | .ok (st2, n2, cs2, k) => ⟨st2, n2, .ok (readsOf s0), .ok k, cs ++ cs2⟩
 
+/-! ## two loads on one object: `set_cookie_adapter_and_reload` -/
+
+/-- `set_cookie_adapter_and_reload(adapter)`: `loaded_ = 0; return load();` on the same object.  `load()` clears
+`data_` and `data_copy_` and resets `timeout_val_`, `how_`, `saved_`, `on_server_` before it asks the storage, so what
+the object holds afterwards comes from the new adapter's cookie alone; the one member a reload keeps is `reset_`. -/
+def reloadSess (prev loaded : Sess) : Sess := { loaded with reset := prev.reset }
+
+structure Req2Out where
+  out : ReqOut                     -- `reads` = what the object shows after the reload
+  reads1 : Except Err Reads        -- what it showed after the first load
+
+/-- one object: load with `ctx1`'s cookie, mutate (`ops1`), reload with `ctx2`'s cookie, mutate (`ops2`), save -/
+def request2 (ctx1 ctx2 : Ctx) (st : Store) (next : Nat) (ops1 ops2 : List Op) : Req2Out :=
+  match siLoad ctx1 st with
+  | (.error e, st1, cs) => ⟨⟨st1, next, .error e, .error e, cs⟩, .error e⟩
+  | (.ok s1, st1, cs1) =>
+    let s1' := applyOps ctx1.cfg ctx1.env s1 ops1
+    match siLoad ctx2 st1 with
+    | (.error e, st2, cs2) => ⟨⟨st2, next, .error e, .error e, cs1 ++ cs2⟩, .ok (readsOf s1)⟩
+    | (.ok s2, st2, cs2) =>
+      let s := applyOps ctx2.cfg ctx2.env (reloadSess s1' s2) ops2
+      match siSave ctx2 s st2 next with
+      | .error e => ⟨⟨st2, next, .ok (readsOf s2), .error e, cs1 ++ cs2⟩, .ok (readsOf s1)⟩
+      | .ok (st3, n3, cs3, k) => ⟨⟨st3, n3, .ok (readsOf s2), .ok k, cs1 ++ cs2 ++ cs3⟩, .ok (readsOf s1)⟩
+
 /-! ## the browser: a cookie jar -/
 
 structure Jar where
